@@ -145,6 +145,34 @@ Definition inb (c : cfg) (y x : Z) : Prop := 0 <= y < PH c /\ 0 <= x < PW c.
 Definition agree (c : cfg) (pg : page) (k : cons) : Prop :=
   forall y x, inb c y x -> canvas k y x = px pg y x.
 
+(* character cells: rows 1..TH, columns 1..TW *)
+Definition tin (c : cfg) (r col : Z) : Prop := 1 <= r <= TH c /\ 1 <= col <= TW c.
+
+Definition tagree (c : cfg) (pg : page) (k : cons) : Prop :=
+  forall r col, tin c r col -> ctext k r col = txt pg r col.
+
+Lemma incells_true : forall r0 r1 c0 c1 r col,
+  incells r0 r1 c0 c1 r col = true <-> (r0 <= r <= r1 /\ c0 <= col <= c1).
+Proof. intros. unfold incells. rewrite !andb_true_iff, !Z.leb_le. lia. Qed.
+
+Lemma incells_false : forall r0 r1 c0 c1 r col,
+  incells r0 r1 c0 c1 r col = false <-> ~ (r0 <= r <= r1 /\ c0 <= col <= c1).
+Proof. intros. rewrite <- incells_true. destruct (incells r0 r1 c0 c1 r col); intuition congruence. Qed.
+
+Lemma tset_in : forall t r0 r1 c0 c1 img r col, r0 <= r <= r1 -> c0 <= col <= c1 ->
+  tset t r0 r1 c0 c1 img r col = img r col.
+Proof.
+  intros. unfold tset. assert (E : incells r0 r1 c0 c1 r col = true) by (apply incells_true; lia).
+  rewrite E. reflexivity.
+Qed.
+
+Lemma tset_out : forall t r0 r1 c0 c1 img r col, ~ (r0 <= r <= r1 /\ c0 <= col <= c1) ->
+  tset t r0 r1 c0 c1 img r col = t r col.
+Proof.
+  intros. unfold tset. assert (E : incells r0 r1 c0 c1 r col = false) by (apply incells_false; assumption).
+  rewrite E. reflexivity.
+Qed.
+
 Lemma mset_in : forall c m y0 y1 x0 x1 img y x, inb c y x -> y0 <= y < y1 -> x0 <= x < x1 ->
   mset c m y0 y1 x0 x1 img y x = img y x.
 Proof.
@@ -204,7 +232,7 @@ Lemma submit_spec : forall c pg k t l b r y x, geom_ok c k -> visible pg = true 
 Proof.
   intros c pg k t l b r y x (G1 & G2 & _) V [Hy Hx].
   unfold submit. rewrite V. geo.
-  simpl sigs. unfold consume. simpl fold_left. unfold consume1, set_canvas. simpl canvas.
+  simpl sigs. unfold consume. simpl fold_left. unfold consume1, set_ctext, set_canvas. simpl canvas.
   rewrite G1, G2.
   set (y0 := (t - 1) * fh c). set (y1 := (b + 1 - 1) * fh c).
   set (x0 := (l - 1) * fw c). set (x1 := (r + 1 - 1) * fw c).
@@ -231,12 +259,37 @@ Proof.
   apply inrect_false in E. destruct H as [H|H]; [exact H | tauto].
 Qed.
 
+(* the same for the text carried by the update signal: the cells of the submitted text rectangle *)
+Lemma submit_tspec : forall c pg k t l b r row col, visible pg = true -> tin c row col ->
+  ctext (consume k (sigs (submit c pg t l b r))) row col =
+  if incells t b l r row col then txt pg row col else ctext k row col.
+Proof.
+  intros c pg k t l b r row col V [Hr Hc].
+  unfold submit. rewrite V. geo.
+  simpl sigs. unfold consume. simpl fold_left. unfold consume1, set_ctext, set_canvas. simpl ctext.
+  destruct (incells t b l r row col) eqn:E.
+  - apply incells_true in E. rewrite tset_in by lia. f_equal; lia.
+  - apply incells_false in E. rewrite tset_out by lia. reflexivity.
+Qed.
+
+Lemma submit_tpoint : forall c pg k t l b r row col, visible pg = true -> tin c row col ->
+  (ctext k row col = txt pg row col \/ (t <= row <= b /\ l <= col <= r)) ->
+  ctext (consume k (sigs (submit c pg t l b r))) row col = txt pg row col.
+Proof.
+  intros c pg k t l b r row col V I H. rewrite submit_tspec by assumption.
+  destruct (incells t b l r row col) eqn:E; [reflexivity|].
+  apply incells_false in E. destruct H as [H|H]; [exact H | tauto].
+Qed.
+
 (* ------------------------------------------------------------------------------------------------ *)
 (* force_submit *)
 Lemma draw_visible : forall c p pg row s e img, visible (fst (draw c p pg row s e img)) = visible pg.
 Proof. intros. unfold draw. geo. reflexivity. Qed.
 
 Lemma draw_sigs : forall c p pg row s e img, sigs (snd (draw c p pg row s e img)) = [].
+Proof. intros. unfold draw. geo. reflexivity. Qed.
+
+Lemma draw_txt : forall c p pg row s e img, txt (fst (draw c p pg row s e img)) = txt pg.
 Proof. intros. unfold draw. geo. reflexivity. Qed.
 
 Lemma draw_px : forall c p pg row s e img y x,
@@ -263,112 +316,172 @@ Qed.
 
 (* the loop body, whatever the widening input says, is: draw cells (r, s..e), submit the same cells *)
 Opaque draw submit.
-Lemma fs_loop_unfold : forall c p pg r l rr d ws img,
+Lemma fs_loop_unfold : forall c p pg r l rr d ws timg img,
   exists s e ws' bad,
     sigs bad = [] /\
-    fs_loop c p pg ((r, (l, rr)) :: d) ws img =
-    (fst (fs_loop c p (fst (draw c p pg r s e img)) d ws' img),
-     bad ++ snd (draw c p pg r s e img) ++ submit c (fst (draw c p pg r s e img)) r s r e
-         ++ snd (fs_loop c p (fst (draw c p pg r s e img)) d ws' img)).
+    let pg0 := refresh_row pg r s e timg in
+    fs_loop c p pg ((r, (l, rr)) :: d) ws timg img =
+    (fst (fs_loop c p (fst (draw c p pg0 r s e img)) d ws' timg img),
+     bad ++ snd (draw c p pg0 r s e img) ++ submit c (fst (draw c p pg0 r s e img)) r s r e
+         ++ snd (fs_loop c p (fst (draw c p pg0 r s e img)) d ws' timg img)).
 Proof.
   intros. simpl fs_loop.
   destruct ws as [|[[r2 s2] e2] ws'].
-  - exists l, rr, [], [EBad 3]. split; [reflexivity|].
-    destruct (draw c p pg r l rr img) as [pg1 ev1]. simpl.
-    destruct (fs_loop c p pg1 d [] img) as [pg2 ev3]. reflexivity.
+  - exists l, rr, [], [EBad 3]. split; [reflexivity|]. cbv zeta.
+    destruct (draw c p (refresh_row pg r l rr timg) r l rr img) as [pg1 ev1]. simpl.
+    destruct (fs_loop c p pg1 d [] timg img) as [pg2 ev3]. reflexivity.
   - destruct ((r2 =? r) && (s2 <=? l) && (rr <=? e2)).
-    + exists s2, e2, ws', []. split; [reflexivity|].
-      destruct (draw c p pg r s2 e2 img) as [pg1 ev1]. simpl.
-      destruct (fs_loop c p pg1 d ws' img) as [pg2 ev3]. reflexivity.
-    + exists l, rr, ws', [EBad 2]. split; [reflexivity|].
-      destruct (draw c p pg r l rr img) as [pg1 ev1]. simpl.
-      destruct (fs_loop c p pg1 d ws' img) as [pg2 ev3]. reflexivity.
+    + exists s2, e2, ws', []. split; [reflexivity|]. cbv zeta.
+      destruct (draw c p (refresh_row pg r s2 e2 timg) r s2 e2 img) as [pg1 ev1]. simpl.
+      destruct (fs_loop c p pg1 d ws' timg img) as [pg2 ev3]. reflexivity.
+    + exists l, rr, ws', [EBad 2]. split; [reflexivity|]. cbv zeta.
+      destruct (draw c p (refresh_row pg r l rr timg) r l rr img) as [pg1 ev1]. simpl.
+      destruct (fs_loop c p pg1 d ws' timg img) as [pg2 ev3]. reflexivity.
 Qed.
-
 Transparent draw submit.
 
-Lemma fs_loop_visible : forall c p d pg ws img, visible (fst (fs_loop c p pg d ws img)) = visible pg.
+Lemma refresh_visible : forall pg r s e timg, visible (refresh_row pg r s e timg) = visible pg.
+Proof. reflexivity. Qed.
+
+Lemma refresh_px : forall pg r s e timg, px (refresh_row pg r s e timg) = px pg.
+Proof. reflexivity. Qed.
+
+Ltac fs_step c p pg r l rr d ws timg img :=
+  let s := fresh "s" in let e := fresh "e" in let ws' := fresh "ws'" in let bad := fresh "bad" in
+  let Hb := fresh "Hb" in let E := fresh "E" in
+  destruct (fs_loop_unfold c p pg r l rr d ws timg img) as (s & e & ws' & bad & Hb & E);
+  cbv zeta in E; rewrite E; cbn [fst snd];
+  set (pg0 := refresh_row pg r s e timg) in *.
+
+Lemma fs_loop_visible : forall c p d pg ws timg img, visible (fst (fs_loop c p pg d ws timg img)) = visible pg.
 Proof.
-  intros c p d. induction d as [|[r [l rr]] d IH]; intros pg ws img; [reflexivity|].
-  destruct (fs_loop_unfold c p pg r l rr d ws img) as (s & e & ws' & bad & Hb & E). rewrite E. cbn [fst].
-  rewrite IH. apply draw_visible.
+  intros c p d. induction d as [|[r [l rr]] d IH]; intros pg ws timg img; [reflexivity|].
+  fs_step c p pg r l rr d ws timg img.
+  rewrite IH. rewrite draw_visible. reflexivity.
 Qed.
 
-Lemma fs_loop_invisible : forall c p d pg ws img, visible pg = false ->
-  sigs (snd (fs_loop c p pg d ws img)) = [].
+Lemma fs_loop_invisible : forall c p d pg ws timg img, visible pg = false ->
+  sigs (snd (fs_loop c p pg d ws timg img)) = [].
 Proof.
-  intros c p d. induction d as [|[r [l rr]] d IH]; intros pg ws img V.
+  intros c p d. induction d as [|[r [l rr]] d IH]; intros pg ws timg img V.
   - simpl. destruct ws; reflexivity.
-  - destruct (fs_loop_unfold c p pg r l rr d ws img) as (s & e & ws' & bad & Hb & E). rewrite E. cbn [snd].
-    assert (V1 : visible (fst (draw c p pg r s e img)) = false) by (rewrite draw_visible; exact V).
+  - fs_step c p pg r l rr d ws timg img.
+    assert (V1 : visible (fst (draw c p pg0 r s e img)) = false) by (rewrite draw_visible; exact V).
     rewrite !sigs_app, Hb, draw_sigs, submit_invisible by exact V1. simpl. apply IH. exact V1.
 Qed.
 
-Lemma fs_loop_geom : forall c p d pg k ws img, geom_ok c k ->
-  geom_ok c (consume k (sigs (snd (fs_loop c p pg d ws img)))).
+Lemma fs_loop_geom : forall c p d pg k ws timg img, geom_ok c k ->
+  geom_ok c (consume k (sigs (snd (fs_loop c p pg d ws timg img)))).
 Proof.
-  intros c p d. induction d as [|[r [l rr]] d IH]; intros pg k ws img G.
+  intros c p d. induction d as [|[r [l rr]] d IH]; intros pg k ws timg img G.
   - simpl. destruct ws; exact G.
-  - destruct (fs_loop_unfold c p pg r l rr d ws img) as (s & e & ws' & bad & Hb & E). rewrite E. cbn [snd].
+  - fs_step c p pg r l rr d ws timg img.
     rewrite !sigs_app, Hb, draw_sigs. simpl app. rewrite consume_app. apply IH. apply submit_geom. exact G.
 Qed.
 
 (* every point that agreed before the loop agrees after it *)
-Lemma fs_loop_point : forall c p d pg k ws img y x, geom_ok c k -> visible pg = true -> inb c y x ->
+Lemma fs_loop_point : forall c p d pg k ws timg img y x, geom_ok c k -> visible pg = true -> inb c y x ->
   canvas k y x = px pg y x ->
-  canvas (consume k (sigs (snd (fs_loop c p pg d ws img)))) y x = px (fst (fs_loop c p pg d ws img)) y x.
+  canvas (consume k (sigs (snd (fs_loop c p pg d ws timg img)))) y x = px (fst (fs_loop c p pg d ws timg img)) y x.
 Proof.
-  intros c p d. induction d as [|[r [l rr]] d IH]; intros pg k ws img y x G V I A.
+  intros c p d. induction d as [|[r [l rr]] d IH]; intros pg k ws timg img y x G V I A.
   - simpl. destruct ws; exact A.
-  - destruct (fs_loop_unfold c p pg r l rr d ws img) as (s & e & ws' & bad & Hb & E). rewrite E. cbn [fst snd].
+  - fs_step c p pg r l rr d ws timg img.
     rewrite !sigs_app, Hb, draw_sigs. simpl app. rewrite consume_app.
     apply IH.
     + apply submit_geom. exact G.
     + rewrite draw_visible. exact V.
     + exact I.
-    + apply draw_submit_point; assumption.
+    + apply (draw_submit_point c p pg0 k r s e img y x);
+        [exact G | unfold pg0; rewrite refresh_visible; exact V | exact I | unfold pg0; rewrite refresh_px; exact A].
+Qed.
+
+(* every cell that agreed before the loop agrees after it: the refreshed cells (r, s..e) are the submitted ones *)
+Lemma fs_loop_tpoint : forall c p d pg k ws timg img row col, visible pg = true -> tin c row col ->
+  ctext k row col = txt pg row col ->
+  ctext (consume k (sigs (snd (fs_loop c p pg d ws timg img)))) row col
+  = txt (fst (fs_loop c p pg d ws timg img)) row col.
+Proof.
+  intros c p d. induction d as [|[r [l rr]] d IH]; intros pg k ws timg img row col V I A.
+  - simpl. destruct ws; exact A.
+  - fs_step c p pg r l rr d ws timg img.
+    rewrite !sigs_app, Hb, draw_sigs. simpl app. rewrite consume_app.
+    assert (V1 : visible (fst (draw c p pg0 r s e img)) = true) by (rewrite draw_visible; exact V).
+    apply IH; [exact V1 | exact I |].
+    apply submit_tpoint; [exact V1 | exact I |].
+    rewrite draw_txt. unfold pg0, refresh_row. cbn [txt set_txt].
+    destruct (incells r r s e row col) eqn:Ein.
+    + right. apply incells_true in Ein. exact Ein.
+    + left. apply incells_false in Ein. rewrite tset_out by exact Ein. exact A.
 Qed.
 
 (* the loop does not touch pixel rows that belong to no dirty text row *)
-Lemma fs_loop_px_outside : forall c p d pg ws img y x,
+Lemma fs_loop_px_outside : forall c p d pg ws timg img y x,
   (forall t, In t d -> ~ ((fst t - 1) * fh c <= y < fst t * fh c)) ->
-  px (fst (fs_loop c p pg d ws img)) y x = px pg y x.
+  px (fst (fs_loop c p pg d ws timg img)) y x = px pg y x.
 Proof.
-  intros c p d. induction d as [|[r [l rr]] d IH]; intros pg ws img y x H.
+  intros c p d. induction d as [|[r [l rr]] d IH]; intros pg ws timg img y x H.
   - simpl. reflexivity.
-  - destruct (fs_loop_unfold c p pg r l rr d ws img) as (s & e & ws' & bad & Hb & E). rewrite E. cbn [fst].
+  - fs_step c p pg r l rr d ws timg img.
     rewrite IH by (intros t Ht; apply H; right; exact Ht).
-    rewrite draw_px. apply mset_out.
+    rewrite draw_px. rewrite mset_out; [reflexivity|].
     specialize (H (r, (l, rr)) (or_introl eq_refl)). simpl in H. lia.
 Qed.
 
-Lemma force_submit_fst : forall c p pg ws img,
-  fst (force_submit c p pg ws img) = set_dirty (fst (fs_loop c p pg (dirty pg) ws img)) [].
-Proof. intros. unfold force_submit. destruct (fs_loop c p pg (dirty pg) ws img). reflexivity. Qed.
+(* ... nor text rows that are not dirty *)
+Lemma fs_loop_txt_outside : forall c p d pg ws timg img row col,
+  (forall t, In t d -> fst t <> row) ->
+  txt (fst (fs_loop c p pg d ws timg img)) row col = txt pg row col.
+Proof.
+  intros c p d. induction d as [|[r [l rr]] d IH]; intros pg ws timg img row col H.
+  - simpl. reflexivity.
+  - fs_step c p pg r l rr d ws timg img.
+    rewrite IH by (intros t Ht; apply H; right; exact Ht).
+    rewrite draw_txt. unfold pg0, refresh_row. cbn [txt set_txt]. apply tset_out.
+    specialize (H (r, (l, rr)) (or_introl eq_refl)). simpl in H. lia.
+Qed.
 
-Lemma force_submit_snd : forall c p pg ws img,
-  snd (force_submit c p pg ws img) = snd (fs_loop c p pg (dirty pg) ws img).
-Proof. intros. unfold force_submit. destruct (fs_loop c p pg (dirty pg) ws img). reflexivity. Qed.
+Lemma force_submit_fst : forall c p pg ws timg img,
+  fst (force_submit c p pg ws timg img) = set_dirty (fst (fs_loop c p pg (dirty pg) ws timg img)) [].
+Proof. intros. unfold force_submit. destruct (fs_loop c p pg (dirty pg) ws timg img). reflexivity. Qed.
 
-Lemma force_submit_visible : forall c p pg ws img, visible (fst (force_submit c p pg ws img)) = visible pg.
+Lemma force_submit_snd : forall c p pg ws timg img,
+  snd (force_submit c p pg ws timg img) = snd (fs_loop c p pg (dirty pg) ws timg img).
+Proof. intros. unfold force_submit. destruct (fs_loop c p pg (dirty pg) ws timg img). reflexivity. Qed.
+
+Lemma force_submit_visible : forall c p pg ws timg img, visible (fst (force_submit c p pg ws timg img)) = visible pg.
 Proof. intros. rewrite force_submit_fst. simpl. apply fs_loop_visible. Qed.
 
-Lemma force_submit_invisible : forall c p pg ws img, visible pg = false ->
-  sigs (snd (force_submit c p pg ws img)) = [].
+Lemma force_submit_dirty : forall c p pg ws timg img, dirty (fst (force_submit c p pg ws timg img)) = [].
+Proof. intros. rewrite force_submit_fst. reflexivity. Qed.
+
+Lemma force_submit_invisible : forall c p pg ws timg img, visible pg = false ->
+  sigs (snd (force_submit c p pg ws timg img)) = [].
 Proof. intros. rewrite force_submit_snd. apply fs_loop_invisible. assumption. Qed.
 
-Lemma force_submit_geom : forall c p pg k ws img, geom_ok c k ->
-  geom_ok c (consume k (sigs (snd (force_submit c p pg ws img)))).
+Lemma force_submit_geom : forall c p pg k ws timg img, geom_ok c k ->
+  geom_ok c (consume k (sigs (snd (force_submit c p pg ws timg img)))).
 Proof. intros. rewrite force_submit_snd. apply fs_loop_geom. assumption. Qed.
 
-Lemma force_submit_point : forall c p pg k ws img y x, geom_ok c k -> visible pg = true -> inb c y x ->
+Lemma force_submit_point : forall c p pg k ws timg img y x, geom_ok c k -> visible pg = true -> inb c y x ->
   canvas k y x = px pg y x ->
-  canvas (consume k (sigs (snd (force_submit c p pg ws img)))) y x = px (fst (force_submit c p pg ws img)) y x.
+  canvas (consume k (sigs (snd (force_submit c p pg ws timg img)))) y x
+  = px (fst (force_submit c p pg ws timg img)) y x.
 Proof. intros. rewrite force_submit_snd, force_submit_fst. simpl px. apply fs_loop_point; assumption. Qed.
 
-Lemma force_submit_agree : forall c p pg k ws img, geom_ok c k -> visible pg = true -> agree c pg k ->
-  agree c (fst (force_submit c p pg ws img)) (consume k (sigs (snd (force_submit c p pg ws img)))).
-Proof. intros c p pg k ws img G V A y x I. apply force_submit_point; auto. Qed.
+Lemma force_submit_tpoint : forall c p pg k ws timg img row col, visible pg = true -> tin c row col ->
+  ctext k row col = txt pg row col ->
+  ctext (consume k (sigs (snd (force_submit c p pg ws timg img)))) row col
+  = txt (fst (force_submit c p pg ws timg img)) row col.
+Proof. intros. rewrite force_submit_snd, force_submit_fst. simpl txt. apply fs_loop_tpoint; assumption. Qed.
+
+Lemma force_submit_agree : forall c p pg k ws timg img, geom_ok c k -> visible pg = true -> agree c pg k ->
+  agree c (fst (force_submit c p pg ws timg img)) (consume k (sigs (snd (force_submit c p pg ws timg img)))).
+Proof. intros c p pg k ws timg img G V A y x I. apply force_submit_point; auto. Qed.
+
+Lemma force_submit_tagree : forall c p pg k ws timg img, visible pg = true -> tagree c pg k ->
+  tagree c (fst (force_submit c p pg ws timg img)) (consume k (sigs (snd (force_submit c p pg ws timg img)))).
+Proof. intros c p pg k ws timg img V A row col I. apply force_submit_tpoint; auto. Qed.
 
 (* ------------------------------------------------------------------------------------------------ *)
 (* what a page operation must satisfy to keep the picture right (lifted to the display below) *)
@@ -385,6 +498,31 @@ Lemma mk_page_op_ok : forall c pg r,
   (forall k, geom_ok c k -> visible pg = true -> agree c pg k -> agree c (fst r) (consume k (sigs (snd r)))) ->
   page_op_ok c pg r.
 Proof. intros. unfold page_op_ok. tauto. Qed.
+
+(* ... and for the character cells *)
+Definition page_op_tok (c : cfg) (pg : page) (r : page * list event) : Prop :=
+  forall k, geom_ok c k -> visible pg = true -> tagree c pg k -> tagree c (fst r) (consume k (sigs (snd r))).
+
+Lemma full_tcover : forall c r col, tin c r col -> 1 <= r <= TH c /\ 1 <= col <= TW c.
+Proof. intros c r col H. exact H. Qed.
+
+Lemma resubmit_tagree : forall c pg k, visible pg = true -> tagree c pg (consume k (sigs (resubmit c pg))).
+Proof.
+  intros c pg k V r col I. unfold resubmit. apply submit_tpoint; try assumption. right. exact I.
+Qed.
+
+(* ... and for the bookkeeping invariant: a page that is not locked has no pending dirty rows *)
+Definition clean (pg : page) : Prop := locked pg = false -> dirty pg = [].
+Definition page_op_lk (pg : page) (r : page * list event) : Prop := clean pg -> clean (fst r).
+
+Lemma force_submit_lk : forall c p pg ws timg img, clean (fst (force_submit c p pg ws timg img)).
+Proof. intros c p pg ws timg img _. apply force_submit_dirty. Qed.
+
+Lemma fs_loop_locked : forall c p d pg ws timg img, locked (fst (fs_loop c p pg d ws timg img)) = locked pg.
+Proof.
+  intros c p d. induction d as [|[r [l rr]] d IH]; intros pg ws timg img; [reflexivity|].
+  fs_step c p pg r l rr d ws timg img. rewrite IH. unfold draw. geo. reflexivity.
+Qed.
 
 Lemma full_cover : forall c y x, cfg_ok c -> inb c y x ->
   (1 - 1) * fh c <= y < (TH c + 1 - 1) * fh c /\ (1 - 1) * fw c <= x < (TW c + 1 - 1) * fw c.
@@ -415,15 +553,26 @@ Proof.
   - intros k G V A y x I. apply submit_point; try assumption.
     destruct (Z_le_gt_dec y0 y) as [Ha|Ha]; destruct (Z_lt_le_dec y y1) as [Hb|Hb];
     destruct (Z_le_gt_dec x0 x) as [Hc|Hc]; destruct (Z_lt_le_dec x x1) as [Hd|Hd];
-    try (left; cbn [px set_px]; rewrite mset_out by lia; apply A; exact I).
+    try (left; cbn [px set_px set_txt]; rewrite mset_out by lia; apply A; exact I).
     right.
     pose proof (cover c y0 (y1 - 1) x0 (x1 - 1) C) as Hcov.
     rewrite E in Hcov. geo_in Hcov.
     destruct I as [Iy Ix]. lia.
 Qed.
 
+Lemma pix_set_tok : forall c p pg y0 y1 x0 x1 v img, page_op_tok c pg (pix_set c p pg y0 y1 x0 x1 v img).
+Proof.
+  intros c p pg y0 y1 x0 x1 v img. unfold pix_set.
+  destruct (text_area c x0 y0 (x1 - 1) (y1 - 1)) as [[[row0 col0] row1] col1] eqn:E.
+  intros k G V A r col I. cbn [fst snd sigs]. apply submit_tpoint; try assumption.
+  cbn [txt set_txt].
+  destruct (incells row0 row1 col0 col1 r col) eqn:Ein.
+  - right. apply incells_true in Ein. exact Ein.
+  - left. apply incells_false in Ein. rewrite tset_out by exact Ein. apply A. exact I.
+Qed.
+
 (* ---- _update (put_char_attr, insert/delete, clear_row_from): dirty rectangle, submitted unless locked *)
-Lemma force_submit_ok : forall c p pg ws img, page_op_ok c pg (force_submit c p pg ws img).
+Lemma force_submit_ok : forall c p pg ws timg img, page_op_ok c pg (force_submit c p pg ws timg img).
 Proof.
   intros. apply mk_page_op_ok.
   - apply force_submit_visible.
@@ -439,7 +588,7 @@ Proof.
   intros k G V Ag. apply D; auto. intros y x I. rewrite Hp. apply Ag. exact I.
 Qed.
 
-Lemma update_ok : forall c p pg row s e ws img, page_op_ok c pg (update c p pg row s e ws img).
+Lemma update_ok : forall c p pg row s e ws timg img, page_op_ok c pg (update c p pg row s e ws timg img).
 Proof.
   intros. unfold update. cbn [locked set_dirty].
   destruct (locked pg).
@@ -452,11 +601,27 @@ Proof.
     apply force_submit_ok.
 Qed.
 
-Lemma unlock_ok : forall c p pg ws img, page_op_ok c pg (unlock c p pg ws img).
+Lemma unlock_ok : forall c p pg ws timg img, page_op_ok c pg (unlock c p pg ws timg img).
 Proof.
   intros. unfold unlock.
   apply page_op_ok_same_px with (pg' := set_locked pg false); try reflexivity. apply force_submit_ok.
 Qed.
+
+Lemma force_submit_tok : forall c p pg ws timg img, page_op_tok c pg (force_submit c p pg ws timg img).
+Proof. intros c p pg ws timg img k G V A. apply force_submit_tagree; assumption. Qed.
+
+Lemma update_tok : forall c p pg row s e ws timg img, page_op_tok c pg (update c p pg row s e ws timg img).
+Proof.
+  intros. unfold update. cbn [locked set_dirty]. destruct (locked pg).
+  - intros k G V A. cbn [fst snd]. destruct ws; exact A.
+  - intros k G V A. apply (force_submit_tok c p (set_dirty pg (dirty_add row s e (dirty pg)))); assumption.
+Qed.
+
+Lemma unlock_tok : forall c p pg ws timg img, page_op_tok c pg (unlock c p pg ws timg img).
+Proof. intros c p pg ws timg img k G V A. unfold unlock. apply (force_submit_tok c p (set_locked pg false)); assumption. Qed.
+
+Lemma lock_tok : forall c pg, page_op_tok c pg (set_locked pg true, []).
+Proof. intros c pg k G V A. exact A. Qed.
 
 Lemma lock_ok : forall c pg, page_op_ok c pg (set_locked pg true, []).
 Proof. intros. apply mk_page_op_ok; cbn [fst snd sigs]; auto. Qed.
@@ -468,38 +633,39 @@ Proof. intros. apply Z.mul_le_mono_nonneg_r; lia. Qed.
 Lemma band_above : forall r b f, 0 < f -> b < r -> b * f <= (r - 1) * f.
 Proof. intros. apply Z.mul_le_mono_nonneg_r; lia. Qed.
 
-Lemma clear_rows_ok : forall c p pg start stop back ws img, cfg_ok c ->
+Lemma clear_rows_ok : forall c p pg start stop back ws timg img, cfg_ok c ->
   1 <= start <= stop -> stop <= TH c -> no_dirty_in (dirty pg) start stop = true ->
-  page_op_ok c pg (clear_rows c p pg start stop back ws img).
+  page_op_ok c pg (clear_rows c p pg start stop back ws timg img).
 Proof.
-  intros c p pg start stop back ws img C Hs Hst Hnd.
+  intros c p pg start stop back ws timg img C Hs Hst Hnd.
   unfold clear_rows. geo.
-  set (pg1 := set_px pg (mset c (px pg) ((start - 1) * fh c) (stop * fh c - 1 + 1) ((1 - 1) * fw c)
-                           (TW c * fw c - 1 + 1) (fun _ _ => back))).
-  destruct (force_submit c p pg1 ws img) as [pg2 ev] eqn:EF.
-  assert (Epg2 : pg2 = fst (force_submit c p pg1 ws img)) by (rewrite EF; reflexivity).
-  assert (Eev : ev = snd (force_submit c p pg1 ws img)) by (rewrite EF; reflexivity).
+  set (pg1 := set_txt (set_px pg (mset c (px pg) ((start - 1) * fh c) (stop * fh c - 1 + 1) ((1 - 1) * fw c)
+                                   (TW c * fw c - 1 + 1) (fun _ _ => back)))
+                      (tset (txt pg) start stop 1 (TW c) tblank)).
+  destruct (force_submit c p pg1 ws timg img) as [pg2 ev] eqn:EF.
+  assert (Epg2 : pg2 = fst (force_submit c p pg1 ws timg img)) by (rewrite EF; reflexivity).
+  assert (Eev : ev = snd (force_submit c p pg1 ws timg img)) by (rewrite EF; reflexivity).
   assert (V2 : visible pg2 = visible pg) by (rewrite Epg2, force_submit_visible; reflexivity).
   apply mk_page_op_ok; cbn [fst snd sigs]; rewrite ?sigs_app.
   - exact V2.
   - intros V. rewrite V2, V. rewrite Eev, force_submit_invisible by exact V. reflexivity.
   - intros k G. rewrite consume_app. rewrite Eev.
-    pose proof (force_submit_geom c p pg1 k ws img G) as G1.
-    destruct (visible pg2); [|exact G1]. cbn [sigs consume fold_left consume1 set_canvas]. exact G1.
+    pose proof (force_submit_geom c p pg1 k ws timg img G) as G1.
+    destruct (visible pg2); [|exact G1]. cbn [sigs consume fold_left consume1 set_canvas set_ctext]. exact G1.
   - intros k G V A. rewrite V2, V. cbn [sigs]. rewrite consume_app. rewrite Eev.
-    pose proof (force_submit_geom c p pg1 k ws img G) as G1.
-    set (k1 := consume k (sigs (snd (force_submit c p pg1 ws img)))) in *.
+    pose proof (force_submit_geom c p pg1 k ws timg img G) as G1.
+    set (k1 := consume k (sigs (snd (force_submit c p pg1 ws timg img)))) in *.
     destruct C as (Hfw & Hfh & Htw & Hth & Hpw & Hlo & Hhi & Hlast).
     destruct G1 as (G1a & G1b & G1c & G1d & G1e & G1f).
-    intros y x I. cbn [consume fold_left consume1 set_canvas canvas]. rewrite G1e, G1b.
+    intros y x I. cbn [consume fold_left consume1 set_canvas set_ctext canvas]. rewrite G1e, G1b.
     destruct I as [Iy Ix].
     destruct (Z_le_gt_dec ((start - 1) * fh c) y) as [Ha|Ha]; destruct (Z_lt_le_dec y (stop * fh c)) as [Hb|Hb].
     + (* inside the cleared band: both sides are `back` *)
       rewrite cset_in by (rewrite ?G1a, ?G1b; lia).
       rewrite Epg2, force_submit_fst. cbn [px set_dirty].
       rewrite fs_loop_px_outside.
-      * unfold pg1. cbn [px set_px]. rewrite mset_in; [reflexivity | split; lia | lia | lia].
-      * intros t Ht. unfold pg1 in Ht. cbn [dirty set_px] in Ht.
+      * unfold pg1. cbn [px set_px set_txt]. rewrite mset_in; [reflexivity | split; lia | lia | lia].
+      * intros t Ht. unfold pg1 in Ht. cbn [dirty set_px set_txt] in Ht.
         unfold no_dirty_in in Hnd. rewrite forallb_forall in Hnd. specialize (Hnd t Ht).
         apply negb_true_iff, andb_false_iff in Hnd.
         destruct Hnd as [Hn|Hn]; [apply Z.leb_gt in Hn | apply Z.leb_gt in Hn].
@@ -509,13 +675,47 @@ Proof.
       * exact G.
       * exact V.
       * split; assumption.
-      * unfold pg1. cbn [px set_px]. rewrite mset_out by lia. apply A. split; assumption.
+      * unfold pg1. cbn [px set_px set_txt]. rewrite mset_out by lia. apply A. split; assumption.
     + rewrite cset_out by lia. rewrite Epg2. apply force_submit_point.
       * exact G.
       * exact V.
       * split; assumption.
-      * unfold pg1. cbn [px set_px]. rewrite mset_out by lia. apply A. split; assumption.
+      * unfold pg1. cbn [px set_px set_txt]. rewrite mset_out by lia. apply A. split; assumption.
     + assert ((start - 1) * fh c <= stop * fh c) by (apply Z.mul_le_mono_nonneg_r; lia). lia.
+Qed.
+
+Lemma clear_rows_tok : forall c p pg start stop back ws timg img,
+  no_dirty_in (dirty pg) start stop = true ->
+  page_op_tok c pg (clear_rows c p pg start stop back ws timg img).
+Proof.
+  intros c p pg start stop back ws timg img Hnd.
+  unfold clear_rows. geo.
+  set (pg1 := set_txt (set_px pg (mset c (px pg) ((start - 1) * fh c) (stop * fh c - 1 + 1) ((1 - 1) * fw c)
+                                   (TW c * fw c - 1 + 1) (fun _ _ => back)))
+                      (tset (txt pg) start stop 1 (TW c) tblank)).
+  destruct (force_submit c p pg1 ws timg img) as [pg2 ev] eqn:EF.
+  assert (Epg2 : pg2 = fst (force_submit c p pg1 ws timg img)) by (rewrite EF; reflexivity).
+  assert (Eev : ev = snd (force_submit c p pg1 ws timg img)) by (rewrite EF; reflexivity).
+  assert (V2 : visible pg2 = visible pg) by (rewrite Epg2, force_submit_visible; reflexivity).
+  intros k G V A. cbn [fst snd sigs]. rewrite sigs_app, V2, V. cbn [sigs]. rewrite consume_app, Eev.
+  pose proof (force_submit_geom c p pg1 k ws timg img G) as G1.
+  set (k1 := consume k (sigs (snd (force_submit c p pg1 ws timg img)))) in *.
+  destruct G1 as (G1a & G1b & G1c & G1d & G1e & G1f).
+  intros r col I. cbn [consume fold_left consume1 set_canvas set_ctext ctext]. rewrite G1d.
+  destruct I as [Ir Ic].
+  destruct (incells start stop 1 (TW c) r col) eqn:Ein.
+  - apply incells_true in Ein. rewrite tset_in by lia.
+    rewrite Epg2, force_submit_fst. cbn [txt set_dirty].
+    rewrite fs_loop_txt_outside.
+    + unfold pg1. cbn [txt set_txt]. rewrite tset_in by lia. reflexivity.
+    + intros t Ht. unfold pg1 in Ht. cbn [dirty set_px set_txt] in Ht.
+      unfold no_dirty_in in Hnd. rewrite forallb_forall in Hnd. specialize (Hnd t Ht).
+      apply negb_true_iff, andb_false_iff in Hnd.
+      destruct Hnd as [Hn|Hn]; apply Z.leb_gt in Hn; lia.
+  - apply incells_false in Ein. rewrite tset_out by exact Ein. rewrite Epg2. apply force_submit_tpoint.
+    + exact V.
+    + split; assumption.
+    + unfold pg1. cbn [txt set_txt]. rewrite tset_out by exact Ein. apply A. split; assumption.
 Qed.
 
 (* ---- scrolling: explicit pictures of both sides *)
@@ -562,7 +762,7 @@ Proof.
   intros k a b back y x Iy Ix Hf Hab.
   assert (Hm : (a - 1) * cfh k <= (b - 1) * cfh k) by (apply Z.mul_le_mono_nonneg_r; lia).
   unfold consume1. geo. change (-1 =? -1) with true. cbv iota.
-  unfold cset, set_canvas. cbn [canvas cPH cPW].
+  unfold cset, set_ctext, set_canvas. cbn [canvas cPH cPW].
   split_rects; try reflexivity; try lia; f_equal; lia.
 Qed.
 
@@ -574,7 +774,7 @@ Proof.
   intros k a b back y x Iy Ix Hf Hab.
   assert (Hm : (a - 1) * cfh k <= b * cfh k) by (apply Z.mul_le_mono_nonneg_r; lia).
   unfold consume1. geo. change (1 =? -1) with false. cbv iota.
-  unfold cset, set_canvas. cbn [canvas cPH cPW].
+  unfold cset, set_ctext, set_canvas. cbn [canvas cPH cPW].
   split_rects; try reflexivity; try lia; f_equal; lia.
 Qed.
 
@@ -584,29 +784,29 @@ Proof.
   destruct (d =? -1); exact G.
 Qed.
 
-Lemma scroll_up_ok : forall c p pg from to back ws img, cfg_ok c ->
+Lemma scroll_up_ok : forall c p pg from to back ws timg img, cfg_ok c ->
   1 <= from <= to -> to * fh c <= PH c ->
-  page_op_ok c pg (scroll_up c p pg from to back ws img).
+  page_op_ok c pg (scroll_up c p pg from to back ws timg img).
 Proof.
-  intros c p pg from to back ws img C Hft Hto.
+  intros c p pg from to back ws timg img C Hft Hto.
   unfold scroll_up.
-  destruct (force_submit c p pg ws img) as [pg1 ev] eqn:EF. geo.
-  assert (Epg1 : pg1 = fst (force_submit c p pg ws img)) by (rewrite EF; reflexivity).
-  assert (Eev : ev = snd (force_submit c p pg ws img)) by (rewrite EF; reflexivity).
+  destruct (force_submit c p pg ws timg img) as [pg1 ev] eqn:EF. geo.
+  assert (Epg1 : pg1 = fst (force_submit c p pg ws timg img)) by (rewrite EF; reflexivity).
+  assert (Eev : ev = snd (force_submit c p pg ws timg img)) by (rewrite EF; reflexivity).
   assert (V1 : visible pg1 = visible pg) by (rewrite Epg1, force_submit_visible; reflexivity).
-  apply mk_page_op_ok; cbn [fst snd visible set_px]; rewrite ?sigs_app.
+  apply mk_page_op_ok; cbn [fst snd visible set_px set_txt]; rewrite ?sigs_app.
   - exact V1.
   - intros V. rewrite V1, V. rewrite Eev, force_submit_invisible by exact V. reflexivity.
   - intros k G. rewrite !consume_app. rewrite Eev.
-    pose proof (force_submit_geom c p pg k ws img G) as G1.
+    pose proof (force_submit_geom c p pg k ws timg img G) as G1.
     destruct (visible pg1); cbn [sigs consume fold_left]; [apply scroll_geom|]; exact G1.
   - intros k G V A. rewrite V1, V. cbn [sigs app]. rewrite consume_app. rewrite Eev.
-    pose proof (force_submit_geom c p pg k ws img G) as G1.
-    pose proof (force_submit_agree c p pg k ws img G V A) as A1. rewrite <- Epg1 in A1.
-    set (k1 := consume k (sigs (snd (force_submit c p pg ws img)))) in *.
+    pose proof (force_submit_geom c p pg k ws timg img G) as G1.
+    pose proof (force_submit_agree c p pg k ws timg img G V A) as A1. rewrite <- Epg1 in A1.
+    set (k1 := consume k (sigs (snd (force_submit c p pg ws timg img)))) in *.
     destruct C as (Hfw & Hfh & Htw & Hth & Hpw & Hlo & Hhi & Hlast).
     destruct G1 as (G1a & G1b & G1c & G1d & G1e & G1f).
-    intros y x I. cbn [consume fold_left px set_px].
+    intros y x I. cbn [consume fold_left px set_px set_txt].
     rewrite scroll_up_canvas by (rewrite ?G1a, ?G1b, ?G1e; destruct I; lia).
     rewrite (scroll_up_px c (px pg1) from to (fh c) back) by (try exact I; lia).
     rewrite G1e, G1b. destruct I as [Iy Ix].
@@ -614,29 +814,29 @@ Proof.
     split_rects; try reflexivity; apply A1; split; lia.
 Qed.
 
-Lemma scroll_down_ok : forall c p pg from to back ws img, cfg_ok c ->
+Lemma scroll_down_ok : forall c p pg from to back ws timg img, cfg_ok c ->
   1 <= from <= to + 1 -> to * fh c <= PH c ->
-  page_op_ok c pg (scroll_down c p pg from to back ws img).
+  page_op_ok c pg (scroll_down c p pg from to back ws timg img).
 Proof.
-  intros c p pg from to back ws img C Hft Hto.
+  intros c p pg from to back ws timg img C Hft Hto.
   unfold scroll_down.
-  destruct (force_submit c p pg ws img) as [pg1 ev] eqn:EF. geo.
-  assert (Epg1 : pg1 = fst (force_submit c p pg ws img)) by (rewrite EF; reflexivity).
-  assert (Eev : ev = snd (force_submit c p pg ws img)) by (rewrite EF; reflexivity).
+  destruct (force_submit c p pg ws timg img) as [pg1 ev] eqn:EF. geo.
+  assert (Epg1 : pg1 = fst (force_submit c p pg ws timg img)) by (rewrite EF; reflexivity).
+  assert (Eev : ev = snd (force_submit c p pg ws timg img)) by (rewrite EF; reflexivity).
   assert (V1 : visible pg1 = visible pg) by (rewrite Epg1, force_submit_visible; reflexivity).
-  apply mk_page_op_ok; cbn [fst snd visible set_px]; rewrite ?sigs_app.
+  apply mk_page_op_ok; cbn [fst snd visible set_px set_txt]; rewrite ?sigs_app.
   - exact V1.
   - intros V. rewrite V1, V. rewrite Eev, force_submit_invisible by exact V. reflexivity.
   - intros k G. rewrite !consume_app. rewrite Eev.
-    pose proof (force_submit_geom c p pg k ws img G) as G1.
+    pose proof (force_submit_geom c p pg k ws timg img G) as G1.
     destruct (visible pg1); cbn [sigs consume fold_left]; [apply scroll_geom|]; exact G1.
   - intros k G V A. rewrite V1, V. cbn [sigs app]. rewrite consume_app. rewrite Eev.
-    pose proof (force_submit_geom c p pg k ws img G) as G1.
-    pose proof (force_submit_agree c p pg k ws img G V A) as A1. rewrite <- Epg1 in A1.
-    set (k1 := consume k (sigs (snd (force_submit c p pg ws img)))) in *.
+    pose proof (force_submit_geom c p pg k ws timg img G) as G1.
+    pose proof (force_submit_agree c p pg k ws timg img G V A) as A1. rewrite <- Epg1 in A1.
+    set (k1 := consume k (sigs (snd (force_submit c p pg ws timg img)))) in *.
     destruct C as (Hfw & Hfh & Htw & Hth & Hpw & Hlo & Hhi & Hlast).
     destruct G1 as (G1a & G1b & G1c & G1d & G1e & G1f).
-    intros y x I. cbn [consume fold_left px set_px].
+    intros y x I. cbn [consume fold_left px set_px set_txt].
     rewrite scroll_down_canvas by (rewrite ?G1a, ?G1b, ?G1e; destruct I; lia).
     rewrite (scroll_down_px c (px pg1) from to (fh c) back) by (try exact I; lia).
     rewrite G1e, G1b. destruct I as [Iy Ix].
@@ -644,6 +844,111 @@ Proof.
     assert (Hone : 1 * fh c <= from * fh c) by (apply Z.mul_le_mono_nonneg_r; lia).
     split_rects; try reflexivity; apply A1; split; lia.
 Qed.
+
+Lemma scroll_up_tok : forall c p pg from to back ws timg img, 1 <= from <= to -> to <= TH c ->
+  page_op_tok c pg (scroll_up c p pg from to back ws timg img).
+Proof.
+  intros c p pg from to back ws timg img Hft Hto.
+  unfold scroll_up.
+  destruct (force_submit c p pg ws timg img) as [pg1 ev] eqn:EF. geo.
+  assert (Epg1 : pg1 = fst (force_submit c p pg ws timg img)) by (rewrite EF; reflexivity).
+  assert (Eev : ev = snd (force_submit c p pg ws timg img)) by (rewrite EF; reflexivity).
+  assert (V1 : visible pg1 = visible pg) by (rewrite Epg1, force_submit_visible; reflexivity).
+  intros k G V A. cbn [fst snd]. rewrite !sigs_app, V1, V. cbn [sigs app]. rewrite consume_app, Eev.
+  pose proof (force_submit_geom c p pg k ws timg img G) as G1.
+  pose proof (force_submit_tagree c p pg k ws timg img V A) as A1. rewrite <- Epg1 in A1.
+  set (k1 := consume k (sigs (snd (force_submit c p pg ws timg img)))) in *.
+  destruct G1 as (G1a & G1b & G1c & G1d & G1e & G1f).
+  intros r col I. cbn [consume fold_left txt set_px set_txt].
+  unfold consume1. geo.
+  match goal with |- context [?d =? -1] => change (d =? -1) with (Z.eqb d (-1)); cbv [Z.eqb Pos.eqb]; cbv iota end.
+  unfold set_ctext, set_canvas. cbn [ctext cTW]. rewrite G1d.
+  destruct I as [Ir Ic].
+  unfold tset. repeat match goal with
+         | |- context [incells ?a ?b ?c0 ?d ?x ?y] =>
+             let E := fresh "E" in destruct (incells a b c0 d x y) eqn:E
+         end;
+  repeat match goal with
+         | H : incells _ _ _ _ _ _ = true |- _ => apply incells_true in H
+         | H : incells _ _ _ _ _ _ = false |- _ => apply incells_false in H
+         end; try reflexivity; try lia; apply A1; split; lia.
+Qed.
+
+Lemma scroll_down_tok : forall c p pg from to back ws timg img, 1 <= from <= to + 1 -> to <= TH c ->
+  page_op_tok c pg (scroll_down c p pg from to back ws timg img).
+Proof.
+  intros c p pg from to back ws timg img Hft Hto.
+  unfold scroll_down.
+  destruct (force_submit c p pg ws timg img) as [pg1 ev] eqn:EF. geo.
+  assert (Epg1 : pg1 = fst (force_submit c p pg ws timg img)) by (rewrite EF; reflexivity).
+  assert (Eev : ev = snd (force_submit c p pg ws timg img)) by (rewrite EF; reflexivity).
+  assert (V1 : visible pg1 = visible pg) by (rewrite Epg1, force_submit_visible; reflexivity).
+  intros k G V A. cbn [fst snd]. rewrite !sigs_app, V1, V. cbn [sigs app]. rewrite consume_app, Eev.
+  pose proof (force_submit_geom c p pg k ws timg img G) as G1.
+  pose proof (force_submit_tagree c p pg k ws timg img V A) as A1. rewrite <- Epg1 in A1.
+  set (k1 := consume k (sigs (snd (force_submit c p pg ws timg img)))) in *.
+  destruct G1 as (G1a & G1b & G1c & G1d & G1e & G1f).
+  intros r col I. cbn [consume fold_left txt set_px set_txt].
+  unfold consume1. geo.
+  match goal with |- context [?d =? -1] => change (d =? -1) with (Z.eqb d (-1)); cbv [Z.eqb Pos.eqb]; cbv iota end.
+  unfold set_ctext, set_canvas. cbn [ctext cTW]. rewrite G1d.
+  destruct I as [Ir Ic].
+  unfold tset. repeat match goal with
+         | |- context [incells ?a ?b ?c0 ?d ?x ?y] =>
+             let E := fresh "E" in destruct (incells a b c0 d x y) eqn:E
+         end;
+  repeat match goal with
+         | H : incells _ _ _ _ _ _ = true |- _ => apply incells_true in H
+         | H : incells _ _ _ _ _ _ = false |- _ => apply incells_false in H
+         end; try reflexivity; try lia; apply A1; split; lia.
+Qed.
+
+(* ---- the bookkeeping invariant for every page operation *)
+Lemma pix_set_lk : forall c p pg y0 y1 x0 x1 v img, page_op_lk pg (pix_set c p pg y0 y1 x0 x1 v img).
+Proof.
+  intros. unfold pix_set. destruct (text_area c x0 y0 (x1 - 1) (y1 - 1)) as [[[row0 col0] row1] col1].
+  intros H. exact H.
+Qed.
+
+Lemma update_lk : forall c p pg row s e ws timg img, page_op_lk pg (update c p pg row s e ws timg img).
+Proof.
+  intros. unfold update. cbn [locked set_dirty]. destruct (locked pg) eqn:L.
+  - intros _ H. cbn [fst locked set_dirty] in H. congruence.
+  - intros _. apply force_submit_lk.
+Qed.
+
+Lemma lock_lk : forall pg, page_op_lk pg (set_locked pg true, []).
+Proof. intros pg _ H. cbn in H. discriminate H. Qed.
+
+Lemma unlock_lk : forall c p pg ws timg img, page_op_lk pg (unlock c p pg ws timg img).
+Proof. intros. intros _. unfold unlock. apply force_submit_lk. Qed.
+
+Lemma clear_rows_lk : forall c p pg a b back ws timg img, page_op_lk pg (clear_rows c p pg a b back ws timg img).
+Proof.
+  intros. unfold clear_rows. geo.
+  match goal with |- context [force_submit c p ?q ws timg img] =>
+    pose proof (force_submit_dirty c p q ws timg img) as D; destruct (force_submit c p q ws timg img) as [pg2 ev] end.
+  intros _ _. exact D.
+Qed.
+
+Lemma scroll_up_lk : forall c p pg a b back ws timg img, page_op_lk pg (scroll_up c p pg a b back ws timg img).
+Proof.
+  intros. unfold scroll_up.
+  pose proof (force_submit_dirty c p pg ws timg img) as D.
+  destruct (force_submit c p pg ws timg img) as [pg1 ev]. geo. intros _ _. exact D.
+Qed.
+
+Lemma scroll_down_lk : forall c p pg a b back ws timg img, page_op_lk pg (scroll_down c p pg a b back ws timg img).
+Proof.
+  intros. unfold scroll_down.
+  pose proof (force_submit_dirty c p pg ws timg img) as D.
+  destruct (force_submit c p pg ws timg img) as [pg1 ev]. geo. intros _ _. exact D.
+Qed.
+
+Lemma copy_from_lk : forall c dst pg m t,
+  page_op_lk pg (let pg1 := set_txt (set_px pg (mset c (px pg) 0 (PH c) 0 (PW c) m)) t in
+                 (pg1, EWrite dst 0 (PH c) 0 (PW c) (-1) :: resubmit c pg1)).
+Proof. intros c dst pg m t H. exact H. Qed.
 
 (* ------------------------------------------------------------------------------------------------ *)
 (* the display: list plumbing *)
@@ -673,12 +978,14 @@ Proof. reflexivity. Qed.
 Definition wf (s : st) : Prop :=
   cfg_ok (scfg s) /\
   (forall p, (p < length (pages s))%nat -> (visible (get_page s p) = true <-> vis s = Some p)) /\
-  (forall v, vis s = Some v -> (v < length (pages s))%nat).
+  (forall v, vis s = Some v -> (v < length (pages s))%nat) /\
+  (forall p, (p < length (pages s))%nat -> clean (get_page s p)).
 
 (* THE INVARIANT: the consumer has the geometry of the current mode and its canvas equals, pixel for pixel,
    the matrix of the visible page *)
 Definition Inv (s : st) (k : cons) : Prop :=
-  wf s /\ geom_ok (scfg s) k /\ (forall v, vis s = Some v -> agree (scfg s) (get_page s v) k).
+  wf s /\ geom_ok (scfg s) k /\
+  (forall v, vis s = Some v -> agree (scfg s) (get_page s v) k /\ tagree (scfg s) (get_page s v) k).
 
 Lemma on_page_eq : forall s p f,
   on_page s p f = (put_page s p (fst (f (get_page s p))), snd (f (get_page s p))).
@@ -686,9 +993,11 @@ Proof. intros. unfold on_page. destruct (f (get_page s p)). reflexivity. Qed.
 
 Lemma on_page_inv : forall s k p f, Inv s k -> (p < length (pages s))%nat ->
   page_op_ok (scfg s) (get_page s p) (f (get_page s p)) ->
+  page_op_tok (scfg s) (get_page s p) (f (get_page s p)) ->
+  page_op_lk (get_page s p) (f (get_page s p)) ->
   Inv (fst (on_page s p f)) (consume k (sigs (snd (on_page s p f)))).
 Proof.
-  intros s k p f ((C & Hfl & Hv) & G & A) Hp (P1 & P2 & P3 & P4).
+  intros s k p f ((C & Hfl & Hv & Hcl) & G & A) Hp (P1 & P2 & P3 & P4) P5 P6.
   rewrite on_page_eq. cbn [fst snd].
   set (pg := get_page s p) in *. set (r := f pg) in *.
   split; [|split].
@@ -697,30 +1006,41 @@ Proof.
       destruct (Nat.eq_dec p q) as [->|Hne].
       * rewrite get_put_same by assumption. fold pg. rewrite P1. apply Hfl. assumption.
       * rewrite get_put_other by assumption. apply Hfl. assumption.
-    + intros v Hvv. rewrite put_length. apply Hv. exact Hvv.
+    + split.
+      * intros v Hvv. rewrite put_length. apply Hv. exact Hvv.
+      * intros q Hq. rewrite put_length in Hq.
+        destruct (Nat.eq_dec p q) as [->|Hne].
+        -- rewrite get_put_same by assumption. apply P6. apply Hcl. assumption.
+        -- rewrite get_put_other by assumption. apply Hcl. assumption.
   - apply P3. exact G.
   - intros v Hvv. cbn [vis put_page] in Hvv. cbn [scfg put_page].
+    destruct (A v Hvv) as [Ap At].
     destruct (Nat.eq_dec p v) as [->|Hne].
     + rewrite get_put_same by assumption. fold pg.
       assert (V : visible pg = true) by (apply Hfl; assumption).
-      apply P4; [exact G | exact V | apply A; exact Hvv].
+      split; [apply P4 | apply P5]; assumption.
     + rewrite get_put_other by assumption.
       assert (V : visible pg = false).
       { destruct (visible pg) eqn:E; [|reflexivity]. apply Hfl in E; [|assumption]. congruence. }
-      rewrite P2 by exact V. rewrite consume_nil. apply A. exact Hvv.
+      rewrite P2 by exact V. rewrite consume_nil. split; assumption.
 Qed.
 
 (* ---- copy_from *)
-Lemma copy_from_ok : forall c dst pg m, cfg_ok c ->
-  page_op_ok c pg (let pg1 := set_px pg (mset c (px pg) 0 (PH c) 0 (PW c) m) in
+Lemma copy_from_ok : forall c dst pg m t, cfg_ok c ->
+  page_op_ok c pg (let pg1 := set_txt (set_px pg (mset c (px pg) 0 (PH c) 0 (PW c) m)) t in
                    (pg1, EWrite dst 0 (PH c) 0 (PW c) (-1) :: resubmit c pg1)).
 Proof.
-  intros c dst pg m C. cbv zeta. apply mk_page_op_ok; cbn [fst snd sigs].
+  intros c dst pg m t C. cbv zeta. apply mk_page_op_ok; cbn [fst snd sigs].
   - reflexivity.
   - intros V. unfold resubmit. rewrite submit_invisible by exact V. reflexivity.
   - intros k G. apply resubmit_geom. exact G.
   - intros k G V A. apply resubmit_agree; assumption.
 Qed.
+
+Lemma copy_from_tok : forall c dst pg m t,
+  page_op_tok c pg (let pg1 := set_txt (set_px pg (mset c (px pg) 0 (PH c) 0 (PW c) m)) t in
+                    (pg1, EWrite dst 0 (PH c) 0 (PW c) (-1) :: resubmit c pg1)).
+Proof. intros c dst pg m t k G V A. cbv zeta. cbn [fst snd sigs]. apply resubmit_tagree. exact V. Qed.
 
 (* ---- set_visible *)
 Lemma set_vis_false : forall c pg, set_vis c pg false = (set_visible_flag pg false, []) \/ set_vis c pg false = (pg, []).
@@ -735,6 +1055,9 @@ Proof.
   intros. unfold set_vis. destruct (visible pg) eqn:E; cbn [Bool.eqb fst snd visible px set_visible_flag]; auto.
 Qed.
 
+Lemma set_vis_clean : forall c pg b, clean pg -> clean (fst (set_vis c pg b)).
+Proof. intros c pg b H. unfold set_vis. destruct (Bool.eqb (visible pg) b); cbn [fst]; exact H. Qed.
+
 Lemma set_vis_true_of_false : forall c pg, visible pg = false ->
   set_vis c pg true = (set_visible_flag pg true, resubmit c (set_visible_flag pg true)).
 Proof. intros c pg E. unfold set_vis. rewrite E. reflexivity. Qed.
@@ -742,19 +1065,20 @@ Proof. intros c pg E. unfold set_vis. rewrite E. reflexivity. Qed.
 (* ---- rebuild: every page is resubmitted, only the visible one reaches the queue *)
 Lemma resubmit_all_spec : forall c l k pgv, cfg_ok c -> geom_ok c k ->
   (forall pg, In pg l -> visible pg = true -> pg = pgv) ->
-  (agree c pgv k \/ (In pgv l /\ visible pgv = true)) ->
-  agree c pgv (consume k (sigs (resubmit_all c l))) /\ geom_ok c (consume k (sigs (resubmit_all c l))).
+  ((agree c pgv k /\ tagree c pgv k) \/ (In pgv l /\ visible pgv = true)) ->
+  agree c pgv (consume k (sigs (resubmit_all c l))) /\ tagree c pgv (consume k (sigs (resubmit_all c l)))
+  /\ geom_ok c (consume k (sigs (resubmit_all c l))).
 Proof.
   intros c l. induction l as [|pg l IH]; intros k pgv C G U H.
-  - cbn [resubmit_all sigs]. rewrite consume_nil. split; [|exact G].
-    destruct H as [H|[[] _]]. exact H.
+  - cbn [resubmit_all sigs]. rewrite consume_nil.
+    destruct H as [[H1 H2]|[[] _]]. split; [exact H1|]. split; [exact H2 | exact G].
   - cbn [resubmit_all]. rewrite sigs_app, consume_app.
     destruct (visible pg) eqn:V.
     + assert (pg = pgv) by (apply U; [left; reflexivity | exact V]). subst pgv.
       apply IH; auto.
       * apply resubmit_geom. exact G.
       * intros pg' Hin Hv. apply U; [right; exact Hin | exact Hv].
-      * left. apply resubmit_agree; assumption.
+      * left. split; [apply resubmit_agree; assumption | apply resubmit_tagree; assumption].
     + assert (E : resubmit c pg = []) by (unfold resubmit; apply submit_invisible; exact V).
       rewrite E. cbn [sigs]. rewrite consume_nil.
       apply IH; auto.
@@ -774,7 +1098,7 @@ Proof. induction n as [|n IH]; intros [|p]; simpl; auto. Qed.
 Theorem rebuild_any_consumer : forall s k, wf s ->
   Inv (fst (step s ORebuild)) (consume k (sigs (snd (step s ORebuild)))).
 Proof.
-  intros s k (C & Hfl & Hvis).
+  intros s k (C & Hfl & Hvis & Hcl).
   cbn [step fst snd sigs].
   change (consume k (SSetMode (PH (scfg s)) (PW (scfg s)) (TH (scfg s)) (TW (scfg s))
                      :: sigs (resubmit_all (scfg s) (pages s))))
@@ -782,16 +1106,16 @@ Proof.
                   (sigs (resubmit_all (scfg s) (pages s)))).
   pose proof (setmode_geom (scfg s) k C) as G0.
   set (k0 := consume1 k (SSetMode (PH (scfg s)) (PW (scfg s)) (TH (scfg s)) (TW (scfg s)))) in *.
-  split; [split; [exact C | split; assumption]|].
+  split; [split; [exact C | split; [assumption | split; assumption]]|].
   destruct (vis s) as [v|] eqn:Ev.
   - pose proof (Hvis v eq_refl) as Hv.
     assert (Vv : visible (get_page s v) = true) by (apply Hfl; auto).
-    destruct (resubmit_all_spec (scfg s) (pages s) k0 (get_page s v) C G0) as (R1 & R2).
+    destruct (resubmit_all_spec (scfg s) (pages s) k0 (get_page s v) C G0) as (R1 & R1t & R2).
     + intros pg Hin Hvp. destruct (In_nth _ _ default_page Hin) as (q & Hq & Eq).
       assert (E : Some v = Some q) by (apply Hfl; [exact Hq | unfold get_page; rewrite Eq; exact Hvp]).
       inversion E; subst q. unfold get_page. symmetry. exact Eq.
     + right. split; [apply nth_In; exact Hv | exact Vv].
-    + split; [exact R2|]. intros v' E. inversion E; subst v'. exact R1.
+    + split; [exact R2|]. intros v' E. inversion E; subst v'. split; [exact R1 | exact R1t].
   - split.
     + assert (R : forall l k', geom_ok (scfg s) k' -> geom_ok (scfg s) (consume k' (sigs (resubmit_all (scfg s) l)))).
       { induction l as [|pg l IH]; intros k' G'; cbn [resubmit_all sigs]; [exact G'|].
@@ -815,20 +1139,24 @@ Lemma step_inv : forall s k o, Inv s k -> op_okb s o = true ->
 Proof.
   intros s k o HI Hok.
   assert (C : cfg_ok (scfg s)) by (destruct HI as ((C & _) & _); exact C).
-  destruct o as [p y0 y1 x0 x1 v img | p row a b ws img | p | p ws img | p a b back ws img
-                | p a b back ws img | p a b back ws img | dst src | v | c' n | ];
+  destruct o as [p y0 y1 x0 x1 v img | p row a b ws timg img | p | p ws timg img | p a b back ws timg img
+                | p a b back ws timg img | p a b back ws timg img | dst src | v | c' n | ];
     cbn [step]; cbn [op_okb] in Hok; unfold has_page, in_rows, in_cols in Hok.
-  - okb_hyps. apply on_page_inv; auto. apply pix_set_ok; auto; lia.
-  - okb_hyps. apply on_page_inv; auto. apply update_ok.
-  - okb_hyps. apply on_page_inv; auto. apply lock_ok.
-  - okb_hyps. apply on_page_inv; auto. apply unlock_ok.
-  - okb_hyps. apply on_page_inv; auto. apply clear_rows_ok; auto; lia.
-  - okb_hyps. apply on_page_inv; auto. apply scroll_up_ok; auto; lia.
-  - okb_hyps. apply on_page_inv; auto. apply scroll_down_ok; auto; lia.
-  - okb_hyps. apply on_page_inv; auto. apply copy_from_ok; auto.
+  - okb_hyps. apply on_page_inv; auto; [apply pix_set_ok; auto; lia | apply pix_set_tok | apply pix_set_lk].
+  - okb_hyps. apply on_page_inv; auto; [apply update_ok | apply update_tok | apply update_lk].
+  - okb_hyps. apply on_page_inv; auto; [apply lock_ok | apply lock_tok | apply lock_lk].
+  - okb_hyps. apply on_page_inv; auto; [apply unlock_ok | apply unlock_tok | apply unlock_lk].
+  - okb_hyps.
+    assert (Hnd : no_dirty_in (dirty (get_page s p)) a b = true).
+    { destruct HI as ((_ & _ & _ & Hcl) & _).
+      rewrite (Hcl p) by first [assumption | (apply negb_true_iff; assumption)]. reflexivity. }
+    apply on_page_inv; auto; [apply clear_rows_ok; auto; lia | apply clear_rows_tok; auto | apply clear_rows_lk].
+  - okb_hyps. apply on_page_inv; auto; [apply scroll_up_ok; auto; lia | apply scroll_up_tok; lia | apply scroll_up_lk].
+  - okb_hyps. apply on_page_inv; auto; [apply scroll_down_ok; auto; lia | apply scroll_down_tok; lia | apply scroll_down_lk].
+  - okb_hyps. apply on_page_inv; auto; [apply copy_from_ok; auto | apply copy_from_tok | apply copy_from_lk].
   - (* set_page *)
     apply Nat.ltb_lt in Hok. rename Hok into Hv.
-    destruct HI as ((_ & Hfl & Hvis) & G & A).
+    destruct HI as ((_ & Hfl & Hvis & Hcl) & G & A).
     (* state after making the old visible page invisible *)
     set (r1 := match vis s with
                | Some o => on_page s o (fun pg => set_vis (scfg s) pg false)
@@ -836,22 +1164,24 @@ Proof.
                end).
     assert (R1 : scfg (fst r1) = scfg s /\ length (pages (fst r1)) = length (pages s) /\ sigs (snd r1) = []
                  /\ (forall q, (q < length (pages s))%nat ->
-                       visible (get_page (fst r1) q) = false /\ px (get_page (fst r1) q) = px (get_page s q))).
+                       visible (get_page (fst r1) q) = false /\ px (get_page (fst r1) q) = px (get_page s q)
+                       /\ clean (get_page (fst r1) q))).
     { unfold r1. destruct (vis s) as [o|] eqn:Eo.
       - rewrite on_page_eq. cbn [fst snd]. pose proof (Hvis o eq_refl) as Ho.
         destruct (set_vis_false_fst (scfg s) (get_page s o)) as (S1 & S2 & S3).
         split; [reflexivity|]. split; [apply put_length|]. split; [rewrite S3; reflexivity|].
         intros q Hq. destruct (Nat.eq_dec o q) as [->|Hne].
-        + rewrite get_put_same by assumption. auto.
-        + rewrite get_put_other by assumption. split; [|reflexivity].
+        + rewrite get_put_same by assumption. split; [exact S1|]. split; [exact S2|].
+          apply set_vis_clean. apply Hcl. assumption.
+        + rewrite get_put_other by assumption. split; [|split; [reflexivity | apply Hcl; assumption]].
           destruct (visible (get_page s q)) eqn:E; [|reflexivity]. apply Hfl in E; [|assumption]. congruence.
       - cbn [fst snd]. split; [reflexivity|]. split; [reflexivity|]. split; [reflexivity|].
-        intros q Hq. split; [|reflexivity].
+        intros q Hq. split; [|split; [reflexivity | apply Hcl; assumption]].
         destruct (visible (get_page s q)) eqn:E; [|reflexivity]. apply Hfl in E; [|assumption]. congruence. }
     destruct R1 as (Rc & Rl & Rs & Rq).
     destruct r1 as [s1 ev1] eqn:Er1. cbn [fst snd] in Rc, Rl, Rs, Rq.
     rewrite on_page_eq.
-    destruct (Rq v Hv) as (Vv & Pv).
+    destruct (Rq v Hv) as (Vv & Pv & Cv).
     rewrite set_vis_true_of_false by exact Vv. cbn [fst snd scfg pages put_page]. rewrite Rc.
     rewrite sigs_app, Rs. cbn [app].
     set (pgv := set_visible_flag (get_page s1 v) true).
@@ -863,11 +1193,16 @@ Proof.
         -- rewrite nth_upd_same by lia. cbn [visible set_visible_flag]. tauto.
         -- rewrite nth_upd_other by assumption. destruct (Rq q Hq) as (Vq & _). unfold get_page in Vq.
            rewrite Vq. split; [discriminate | intros E; inversion E; congruence].
-      * intros v' E. cbn [vis] in E. inversion E; subst v'. cbn [pages]. rewrite upd_nth_length, Rl. exact Hv.
+      * split.
+        -- intros v' E. cbn [vis] in E. inversion E; subst v'. cbn [pages]. rewrite upd_nth_length, Rl. exact Hv.
+        -- intros q Hq. cbn [pages] in Hq. rewrite upd_nth_length, Rl in Hq. unfold get_page. cbn [pages].
+           destruct (Nat.eq_dec v q) as [->|Hne].
+           ++ rewrite nth_upd_same by lia. exact Cv.
+           ++ rewrite nth_upd_other by assumption. destruct (Rq q Hq) as (_ & _ & Cq). exact Cq.
     + cbn [scfg]. apply resubmit_geom. exact G.
     + intros v' E. cbn [vis] in E. inversion E; subst v'. cbn [scfg].
-      unfold get_page at 1. cbn [pages]. rewrite nth_upd_same by lia. fold (get_page s1 v). fold pgv.
-      apply resubmit_agree; auto.
+      unfold get_page. cbn [pages]. rewrite !nth_upd_same by lia. fold (get_page s1 v). fold pgv.
+      split; [apply resubmit_agree; auto | apply resubmit_tagree; reflexivity].
   - (* _set_mode *)
     apply andb_true_iff in Hok. destruct Hok as [H Hn]. apply cfg_okb_ok in H.
     cbn [fst snd sigs].
@@ -877,7 +1212,8 @@ Proof.
     + split; [exact H|]. split.
       * intros p Hp. unfold get_page. cbn [pages vis]. rewrite nth_repeat_blank. cbn [visible blank_page].
         split; discriminate.
-      * intros v E. discriminate E.
+      * split; [intros v E; discriminate E|].
+        intros p Hp. unfold get_page. cbn [pages]. rewrite nth_repeat_blank. intros _. reflexivity.
     + cbn [scfg]. apply setmode_geom. exact H.
     + intros v E. discriminate E.
   - (* rebuild *)
@@ -918,9 +1254,25 @@ Proof.
   destruct HI as (_ & _ & A). apply (A v Hv). split; assumption.
 Qed.
 
+(* ... and holds exactly the unicode character cells get_chars(as_type=unicode) reports for the visible page *)
+Theorem session_text : forall s k0 ops, wf s ->
+  ops_okb (fst (step s ORebuild)) ops = true ->
+  let r := run s (ORebuild :: ops) in
+  let k := consume k0 (sigs (snd r)) in
+  forall v, vis (fst r) = Some v ->
+  forall row col, 1 <= row <= TH (scfg (fst r)) -> 1 <= col <= TW (scfg (fst r)) ->
+  ctext k row col = txt (get_page (fst r) v) row col.
+Proof.
+  intros s k0 ops W Hok r k v Hv row col Hr Hc.
+  assert (HI : Inv (fst r) k).
+  { unfold k, r. rewrite run_cons. cbn [fst snd]. rewrite sigs_app, consume_app.
+    apply run_inv; [|exact Hok]. apply rebuild_any_consumer. exact W. }
+  destruct HI as (_ & _ & A). apply (A v Hv). split; assumption.
+Qed.
+
 Lemma init_st_wf : forall c n v, cfg_ok c -> (v < n)%nat -> wf (init_st c n v).
 Proof.
-  intros c n v C Hv. unfold init_st. split; [exact C|]. split.
+  intros c n v C Hv. unfold init_st. split; [exact C|]. split; [|split].
   - intros p Hp. cbn [pages vis] in *. rewrite upd_nth_length, repeat_length in Hp.
     unfold get_page. cbn [pages].
     destruct (Nat.eq_dec v p) as [->|Hne].
@@ -928,6 +1280,10 @@ Proof.
     + rewrite nth_upd_other by assumption. rewrite nth_repeat_blank. cbn [visible blank_page].
       split; [discriminate | intros E; inversion E; congruence].
   - intros v' E. cbn [vis] in E. inversion E; subst v'. cbn [pages]. rewrite upd_nth_length, repeat_length. exact Hv.
+  - intros p Hp. cbn [pages] in Hp. rewrite upd_nth_length, repeat_length in Hp. unfold get_page. cbn [pages].
+    destruct (Nat.eq_dec v p) as [->|Hne].
+    + rewrite nth_upd_same by (rewrite repeat_length; exact Hp). rewrite nth_repeat_blank. intros _. reflexivity.
+    + rewrite nth_upd_other by assumption. rewrite nth_repeat_blank. intros _. reflexivity.
 Qed.
 
 (* ------------------------------------------------------------------------------------------------ *)
@@ -935,7 +1291,7 @@ Qed.
    invariant as soon as the background is not 0 *)
 Definition scroll_up_unfixed (c : cfg) (p : nat) (pg : page) (from to back : Z) (ws : list (Z * Z * Z)) (img : mat)
   : page * list event :=
-  let '(pg1, ev) := force_submit c p pg ws img in
+  let '(pg1, ev) := force_submit c p pg ws tblank img in
   let sg := if visible pg1 then [ESig (SScroll (-1) from to back)] else [] in
   let '(sx0, sy0, sx1, sy1) := area c (from + 1) 1 to (TW c) in
   let '(tx0, ty0) := pos c from 1 in
@@ -943,8 +1299,8 @@ Definition scroll_up_unfixed (c : cfg) (p : nat) (pg : page) (from to back : Z) 
   (set_px pg1 m1, ev ++ sg ++ [EMove p sy0 (sy1 + 1) sx0 (sx1 + 1) ty0 tx0]).
 
 Definition d11_cfg : cfg := mkCfg 2 1 2 1 1 1.            (* two text rows of one 1x1 cell *)
-Definition d11_page : page := mkPage (fun _ _ => 1) true false [].   (* after COLOR ,1: CLS *)
-Definition d11_cons : cons := mkCons 2 1 2 1 1 1 (fun _ _ => 1).
+Definition d11_page : page := mkPage (fun _ _ => 1) tblank true false [].   (* after COLOR ,1: CLS *)
+Definition d11_cons : cons := mkCons 2 1 2 1 1 1 (fun _ _ => 1) tblank.
 
 Lemma d11_start_agrees : cfg_ok d11_cfg /\ geom_ok d11_cfg d11_cons /\ agree d11_cfg d11_page d11_cons.
 Proof.
@@ -958,6 +1314,82 @@ Lemma scroll_unfixed_refuted :
 Proof. vm_compute. split; reflexivity. Qed.
 
 Lemma scroll_fixed_same_witness :
-  let r := scroll_up d11_cfg 0 d11_page 1 2 1 [] zimg in
+  let r := scroll_up d11_cfg 0 d11_page 1 2 1 [] tblank zimg in
   canvas (consume d11_cons (sigs (snd r))) 1 0 = 1 /\ px (fst r) 1 0 = 1.
 Proof. vm_compute. split; reflexivity. Qed.
+
+(* ------------------------------------------------------------------------------------------------ *)
+(* the Hercules exclusion, exactly: inside the text screen the scroll condition `to*fh <= PH` fails only for a
+   scroll that includes the last text row of a mode whose last row is cut off (PH < TH*fh) *)
+Lemma scroll_range_exact : forall c a b, cfg_ok c -> 1 <= a -> a <= b -> b <= TH c ->
+  (b * fh c <= PH c <-> ~ (b = TH c /\ PH c < TH c * fh c)).
+Proof.
+  intros c a b (Hfw & Hfh & Htw & Hth & Hpw & Hlo & Hhi & Hlast) Ha Hab Hb. split.
+  - intros H [E L]. subst b. lia.
+  - intros H. destruct (Z.eq_dec b (TH c)) as [E|E].
+    + subst b. lia.
+    + assert (b * fh c <= (TH c - 1) * fh c) by (apply Z.mul_le_mono_nonneg_r; lia). lia.
+Qed.
+
+(* the only mode with a cut-off last row is 720x348 (Hercules SCREEN 3); every mode has 25 text rows *)
+Lemma cut_off_modes :
+  filter (fun t => let c := cfg_of_tuple t in PH c <? TH c * fh c) mode_table = [(348, 720, 25, 80, 14, 9)]
+  /\ forallb (fun t => TH (cfg_of_tuple t) =? 25) mode_table = true
+  /\ forallb (fun t => let c := cfg_of_tuple t in (PH c =? TH c * fh c) && cfg_okb c) tandy_mode_table = true.
+Proof. vm_compute. repeat split; reflexivity. Qed.
+
+(* ------------------------------------------------------------------------------------------------ *)
+(* callers: the scroll area stays inside the screen, and below the last row except on Tandy/PCjr *)
+Definition sa_ok (tandy : bool) (a : sarea) : Prop :=
+  sa_height a = 25 /\ 1 <= sa_top a <= sa_bottom a /\ sa_bottom a <= 25 /\ (tandy = false -> sa_bottom a <= 24).
+
+Definition sa_op_ok (tandy : bool) (o : sa_op) : Prop :=
+  match o with
+  | SaUnset => True
+  | SaViewPrint _ _ nobar => nobar = true -> tandy = true      (* _tandytext and not bottom_bar.visible *)
+  | SaInitMode h => h = 25                                     (* every mode has 25 rows: cut_off_modes *)
+  end.
+
+Lemma sa_step_ok : forall tandy a o, sa_ok tandy a -> sa_op_ok tandy o -> sa_ok tandy (sa_step a o).
+Proof.
+  intros tandy a o (Hh & Ht & Hb & Hn) Ho. destruct o as [|start stop nobar|h]; cbn [sa_step sa_op_ok] in *.
+  - unfold sa_ok, sa_unset. cbn. rewrite Hh. repeat split; lia.
+  - destruct ((1 <=? start) && (start <=? (if nobar then 25 else 24)) && (1 <=? stop)
+              && (stop <=? (if nobar then 25 else 24)) && (start <=? stop)) eqn:E.
+    + repeat (apply andb_true_iff in E; destruct E as [E ?]).
+      repeat match goal with H : (_ <=? _) = true |- _ => apply Z.leb_le in H end.
+      unfold sa_ok. cbn. destruct nobar.
+      * repeat split; try lia. intros T. rewrite Ho in T by reflexivity. discriminate T.
+      * repeat split; lia.
+    + unfold sa_ok. auto.
+  - subst h. destruct (sa_bottom a =? 25) eqn:E.
+    + apply Z.eqb_eq in E. unfold sa_ok. cbn. repeat split; try lia. intros T. specialize (Hn T). lia.
+    + unfold sa_ok, sa_unset. cbn. repeat split; lia.
+Qed.
+
+Theorem sa_inv : forall tandy ops a, sa_ok tandy a -> Forall (sa_op_ok tandy) ops ->
+  sa_ok tandy (fold_left sa_step ops a).
+Proof.
+  intros tandy ops. induction ops as [|o r IH]; intros a Ha Hops; [exact Ha|].
+  inversion Hops; subst. cbn [fold_left]. apply IH; [apply sa_step_ok; assumption | assumption].
+Qed.
+
+(* hence the calls clear_view -> clear_rows(top, bottom), clear -> clear_rows(1, height),
+   redraw_bar -> clear_rows(height, height), scroll() -> scroll_up(top, bottom) have arguments inside the
+   envelope in every mode (on Tandy/PCjr: in every mode of those adapters) *)
+Theorem scroll_area_calls_in_envelope : forall tandy a c, sa_ok tandy a -> cfg_ok c -> TH c = 25 ->
+  (tandy = true -> PH c = TH c * fh c) ->
+  in_rows c (sa_top a) (sa_bottom a) = true /\ in_rows c 1 (sa_height a) = true
+  /\ in_rows c (sa_height a) (sa_height a) = true /\ (sa_bottom a * fh c <=? PH c) = true.
+Proof.
+  intros tandy a c (Hh & Ht & Hb & Hn) C H25 Htd.
+  destruct C as (Hfw & Hfh & Htw & Hth & Hpw & Hlo & Hhi & Hlast).
+  unfold in_rows. rewrite Hh, H25. split; [|split; [|split]].
+  - rewrite !andb_true_iff, !Z.leb_le. lia.
+  - reflexivity.
+  - reflexivity.
+  - apply Z.leb_le. destruct tandy.
+    + rewrite (Htd eq_refl), H25. apply Z.mul_le_mono_nonneg_r; lia.
+    + specialize (Hn eq_refl). rewrite H25 in Hlast.
+      assert (sa_bottom a * fh c <= 24 * fh c) by (apply Z.mul_le_mono_nonneg_r; lia). lia.
+Qed.
